@@ -667,8 +667,39 @@ func (g *gen) includeStmt() []Node {
 		rg := &Range{Form: 2, K: g.tok("v"), V: kv, Subj: Var{lv}, Body: []Node{&Text{S: "<incl:"}, &Include{Name: Var{kv}}, &Text{S: ">"}}}
 		return append(pre, rg)
 	}
-	g.feat["include"] = true
 	target := g.pick(g.incFiles)
+	if g.cfg.IncludeIfExists && g.r.Intn(4) == 0 {
+		// includeIfExists: like include when the template exists (names resolve against the root), nothing and false otherwise
+		fam := famKey(target)
+		e := IncludeIfExists{Name: target}
+		if g.r.Intn(3) == 0 {
+			e.Name = "/missing/" + g.tok("m") + ".jet"
+			g.feat["includeIfExists-missing"] = true
+		} else {
+			g.feat["includeIfExists-existing"] = true
+		}
+		if g.cfg.Ctx && g.r.Intn(3) == 0 {
+			e.Ctx = g.ctxExpr()
+		}
+		pre := &Let{Names: []string{"iv_" + fam}, Es: []Expr{Lit{Str(g.tok("iv"))}}}
+		g.declare("iv_"+fam, KMap)
+		if g.r.Intn(2) == 0 {
+			return []Node{pre, &Text{S: "<iie:"}, &Print{E: e}, &Text{S: ">"}, &Text{S: "[?jv_" + fam + "="}, &Print{E: Isset{"jv_" + fam}}, &Text{S: "]"}}
+		}
+		return []Node{pre, &If{Cond: e, Then: []Node{&Text{S: "<iie-true>"}}, HasElse: true, Else: []Node{&Text{S: "<iie-false>"}}}}
+	}
+	if g.cfg.ExecNoReturn && g.r.Intn(4) == 0 {
+		g.feat["exec-no-return"] = true
+		fam := famKey(target)
+		e := Exec{Name: target}
+		if g.cfg.Ctx && g.r.Intn(3) == 0 {
+			e.Ctx = g.ctxExpr()
+		}
+		pre := &Let{Names: []string{"iv_" + fam}, Es: []Expr{Lit{Str(g.tok("iv"))}}}
+		g.declare("iv_"+fam, KMap)
+		return []Node{pre, &Text{S: "<exec:"}, &Print{E: e}, &Text{S: ">"}}
+	}
+	g.feat["include"] = true
 	inc := &Include{}
 	// spell the name relative to the includer or absolutely
 	name := target
